@@ -17,6 +17,8 @@ OVERLAY = {
     HS + "/zz_c19_fmt_verif_test.go": "harness/overlay/httpauth/c19_fmt_verif_test.go",
     HS + "/zz_c19_cli_verif_test.go": "harness/overlay/httpauth/c19_cli_verif_test.go",
     HS + "/zz_c19_cli2_verif_test.go": "harness/overlay/httpauth/c19_cli2_verif_test.go",
+    HS + "/zz_c19_obj_verif_test.go": "harness/overlay/httpauth/c19_obj_verif_test.go",
+    HS + "/zz_c19_dflt_verif_test.go": "harness/overlay/httpauth/c19_dflt_verif_test.go",
     HS + "/zz_c19_e2e_verif_test.go": "harness/overlay/httpauth/c19_e2e_verif_test.go",
     HS + "/zz_c19_hook_verif.go": "harness/overlay/httpauth/c19_hook_verif.go",
 }
@@ -161,6 +163,8 @@ def key(tag, toks, d):
 
 
 def what(tag, toks, d):
+    if toks[0] == 3 and len(d) > 1 and d[1] == 6:
+        return "server handed out a token naming a peer that this request does not prove (diag %s)" % d
     if toks[0] == 3:
         return "server reported peer id %s without a proof in the request (diag %s)" % (d[2] if len(d) > 2 else "?", d)
     if toks[0] == 4:
@@ -196,10 +200,13 @@ if __name__ == "__main__":
              "re-MACed under a foreign secret and under the right one; crafted, reflected, cross-domain and transplanted signatures; cross use "
              "of token and challenge; time offsets -1s,-1ns,0,+1ns,+1s around challengeTTL and TokenTTL; 20 header formattings), each run on the "
              "real PeerIDAuthHandshakeServer (mode 0) and again over HTTP/HTTPS through the real ServerPeerIDAuth with 9 transport variants "
-             "(mode 1: Next callback argument, status, response header); 60 scripted adversarial response sequences to the real handshake "
+             "(mode 1: Next callback argument, status, response header); 8 sequences per round on ONE handshake-server object reused through "
+             "Reset() (bearer of X, anonymous request, what was handed out replayed as bearer / as opaque, answers of other clients, random walk); "
+             "two independent default-configured ServerPeerIDAuth instances (HmacKey unset) with challenges and tokens swapped between them and "
+             "states forged under the empty key and a known wrong key; 60 scripted adversarial response sequences to the real handshake "
              "client (kind 4) and 60 to the real ClientPeerIDAuth.AuthenticatedDo over HTTP (kind 5); 2 real-client/real-server runs over HTTP "
              "with stored and expired tokens; byte-level cases for genDataToSign (kind 1) and parsePeerIDAuthSchemeParams (kind 2). Every "
-             "answer is compared with the Coq model (conform_case) and judged by the property monitor (monitor_case). A case is non-trivial "
+             "answer is compared with the Coq model (conform_case) and judged by the property monitor (monitor_case: a reported id needs a proof in this request; an emitted token must name a peer this request proves). A case is non-trivial "
              "when an identity was reported (server accept / client reports a server id); distinct = distinct case lines among those.",
         describe=describe, key=key, what=what, crosscheck=60,
     ))
